@@ -105,17 +105,27 @@ def key_scheme(ctx, rep, clause):
        md.loc(), clause)
 
 
+def has_mods_coverage(ctx, rep, clause):
+    """has_mods() answers for all ten modification fields (through has_<field>() or the field itself): it guards
+    the unmodified fast paths of slice() and of the digest dispatcher, so a field it forgets is dropped there"""
+    an, program = ctx.analyzer, ctx.program
+    m = program.cls(PFA).methods['has_mods']
+    tags = ret_tags(an, m.fq)
+    covered = {t[len('has_'):] for t in tags if t.startswith('has_')} | {t.lstrip('_') for t in tags}
+    for fld in MOD_FIELDS:
+        ob(rep, 'FLD', m.fq, f'has_mods covers field {fld}', fld in covered, 'in the slice of the result',
+           f'has_mods ignores {fld}: an annotation whose only modification is in {fld} takes the "no modification" '
+           f'fast path of slice()/digest and loses it', m.loc(), clause)
+
+
 def coverage(ctx, rep, clause):
     an, program = ctx.analyzer, ctx.program
     cls = program.cls(PFA)
     fields = [n.lstrip('_') for n in cls.field_names()]
-    for meth, req in (('__eq__', fields), ('dict', fields), ('mod_dict', MOD_FIELDS), ('has_mods', None)):
+    has_mods_coverage(ctx, rep, clause)
+    for meth, req in (('__eq__', fields), ('dict', fields), ('mod_dict', MOD_FIELDS)):
         m = cls.methods[meth]
         tags = ret_tags(an, m.fq)
-        if req is None:
-            # has_mods goes through has_<field>() calls
-            tags = {t[len('has_'):] for t in tags if t.startswith('has_')}
-            req = MOD_FIELDS
         for fld in req:
             ob(rep, 'FLD', m.fq, f'{meth} covers field {fld}', fld in tags, 'in the slice of the result',
                f'{meth} ignores {fld}', m.loc(), clause)
